@@ -25,6 +25,7 @@
 from __future__ import annotations
 
 import asyncio
+import dataclasses
 import enum
 import logging
 from collections.abc import Awaitable, Callable, Sequence
@@ -2026,8 +2027,23 @@ class Manager(utils.EventEmitter):
     ) -> None:
         # Store the keys in the key store
         if self.device.keystore and identity_address is not None:
+            # The new bond replaces the previous one. A key store may merge an update
+            # into the entry it already has, so remove that entry first: otherwise
+            # long term keys of the earlier pairing that this one did not produce
+            # would survive and still be used (or vouch for the peer) afterwards.
+            # Classic keys are not the business of an LE pairing: keep them.
+            name = str(identity_address)
+            stored_keys = keys
+            if (previous_keys := await self.device.keystore.get(name)) is not None:
+                if keys.link_key is None and previous_keys.link_key is not None:
+                    stored_keys = dataclasses.replace(
+                        keys,
+                        link_key=previous_keys.link_key,
+                        link_key_type=previous_keys.link_key_type,
+                    )
+                await self.device.keystore.delete(name)
             # Make sure on_pairing emits after key update.
-            await self.device.update_keys(str(identity_address), keys)
+            await self.device.update_keys(name, stored_keys)
         # Notify the device
         self.device.on_pairing(session.connection, identity_address, keys, session.sc)
 
